@@ -305,23 +305,15 @@ Proof.
 Qed.
 
 (** tile matrices *)
-Lemma point_loop_finite : forall l i p0 p, point_loop l i p0 = CVal p ->
-  finite (fst p0) -> finite (snd p0) -> finite (fst p) /\ finite (snd p).
-Proof.
-  induction l as [|x r IH]; intros i p0 p H F1 F2; simpl in H.
-  - inversion H; subst. auto.
-  - destruct x; try discriminate.
-    + eapply IH; eauto.
-    + destruct (f64_dec d) as [q|] eqn:E; [|discriminate].
-      destruct i as [|[|i]]; try discriminate.
-      * eapply IH; eauto; cbn [fst snd]; auto. exists q; exact E.
-      * eapply IH; eauto; cbn [fst snd]; auto. exists q; exact E.
-Qed.
-
 Lemma conv_point_finite : forall v p, conv_point v = CVal p -> finite (fst p) /\ finite (snd p).
 Proof.
-  intros v p H. unfold conv_point in H. destruct v; try discriminate.
-  eapply point_loop_finite; eauto; apply finite_dzero.
+  intros v p H. unfold conv_point in H.
+  destruct v as [| | | |l|]; try discriminate. destruct l as [|x [|y [|z r]]]; try discriminate.
+  - destruct x; discriminate.
+  - destruct x; try discriminate. destruct y; try discriminate.
+    destruct (f64_dec d) as [qa|] eqn:Ea; [|discriminate]. destruct (f64_dec d0) as [qb|] eqn:Eb; [|discriminate].
+    inversion H; subst. cbn [fst snd]. split; eexists; eassumption.
+  - destruct x; try discriminate. destruct y; discriminate.
 Qed.
 
 Lemma conv_float_cval_finite : forall v, is_hard (conv_float v) = false -> finite (cval (conv_float v) dzero).
@@ -338,22 +330,19 @@ Qed.
 Theorem decodeTM_wf : forall o m, decodeTM o = Ok m -> tm_wf m.
 Proof.
   intros o m H. unfold decodeTM in H.
-  destruct (is_panic (member "pointOfOrigin" conv_point o)) eqn:EP.
-  - cbn [andb] in H. destruct (_ || _) in H; discriminate.
-  - cbn [andb] in H.
-    match type of H with (if ?hs then _ else _) = _ => destruct hs eqn:EH end; [discriminate|].
-    apply orb_false_iff in EH. destruct EH as [EHard ESoft].
-    repeat (apply orb_false_iff in EHard; destruct EHard as [EHard ?]).
-    match type of H with (if tm_valid ?mm then _ else _) = _ => destruct (tm_valid mm) eqn:EV end; [|discriminate].
-    inversion H; subst. clear H. unfold tm_wf. split; [exact EV|].
-    cbn [tm_scaleDenominator tm_cellSize tm_origin].
-    split; [apply member_float_finite; assumption|]. split; [apply member_float_finite; assumption|].
-    unfold tm_valid in EV. cbn [tm_origin] in EV.
-    destruct (copt (member "pointOfOrigin" conv_point o)) as [p|] eqn:EO.
-    + exists p. split; [reflexivity|]. unfold copt in EO. unfold member in *.
-      destruct (lookup_last "pointOfOrigin" o) as [v|]; [|discriminate].
-      destruct (conv_point v) eqn:EC; try discriminate. inversion EO; subst. eapply conv_point_finite; eauto.
-    + exfalso. repeat (apply andb_true_iff in EV; destruct EV as [EV ?]). discriminate.
+  match type of H with (if ?hs then _ else _) = _ => destruct hs eqn:EH end; [discriminate|].
+  apply orb_false_iff in EH. destruct EH as [EHard ESoft].
+  repeat (apply orb_false_iff in EHard; destruct EHard as [EHard ?]).
+  match type of H with (if tm_valid ?mm then _ else _) = _ => destruct (tm_valid mm) eqn:EV end; [|discriminate].
+  inversion H; subst. clear H. unfold tm_wf. split; [exact EV|].
+  cbn [tm_scaleDenominator tm_cellSize tm_origin].
+  split; [apply member_float_finite; assumption|]. split; [apply member_float_finite; assumption|].
+  unfold tm_valid in EV. cbn [tm_origin] in EV.
+  destruct (copt (member "pointOfOrigin" conv_point o)) as [p|] eqn:EO.
+  + exists p. split; [reflexivity|]. unfold copt in EO. unfold member in *.
+    destruct (lookup_last "pointOfOrigin" o) as [v|]; [|discriminate].
+    destruct (conv_point v) eqn:EC; try discriminate. inversion EO; subst. eapply conv_point_finite; eauto.
+  + exfalso. repeat (apply andb_true_iff in EV; destruct EV as [EV ?]). discriminate.
 Qed.
 
 Lemma insert_tm_in : forall k m l e, In e (insert_tm k m l) -> e = (k, m) \/ In e l.
@@ -424,14 +413,12 @@ Proof.
   intros a [k v] a' [I1 [I2 I3]] H. unfold bb_step in H.
   destruct (String.eqb k "lowerLeft").
   { destruct (conv_point v) as [p| | | |] eqn:E; try discriminate; inversion H; subst.
-    - split; [|split]; cbn [ba_ll ba_ur ba_crs]; [|exact I2|exact I3].
-      intros pp Hp. inversion Hp; subst. eapply conv_point_finite; eauto.
-    - split; [exact I1|split; [exact I2|exact I3]]. }
+    split; [|split]; cbn [ba_ll ba_ur ba_crs]; [|exact I2|exact I3].
+    intros pp Hp. inversion Hp; subst. eapply conv_point_finite; eauto. }
   destruct (String.eqb k "upperRight").
   { destruct (conv_point v) as [p| | | |] eqn:E; try discriminate; inversion H; subst.
-    - split; [|split]; cbn [ba_ll ba_ur ba_crs]; [exact I1| |exact I3].
-      intros pp Hp. inversion Hp; subst. eapply conv_point_finite; eauto.
-    - split; [exact I1|split; [exact I2|exact I3]]. }
+    split; [|split]; cbn [ba_ll ba_ur ba_crs]; [exact I1| |exact I3].
+    intros pp Hp. inversion Hp; subst. eapply conv_point_finite; eauto. }
   destruct (String.eqb k "orderedAxes").
   { destruct (conv_strs v); try discriminate; inversion H; subst; (split; [exact I1|split; [exact I2|exact I3]]). }
   destruct (nums_finite v) eqn:EN; [|discriminate].
